@@ -114,7 +114,7 @@ type cont struct {
 	revPark     int
 	revParked   chan struct{}
 	revRelease  chan bool
-	closing     chan struct{} // a Reset / ResetLeader parked inside lease.Close (closed when it has returned)
+	closing     chan struct{}    // a Reset / ResetLeader parked inside lease.Close (closed when it has returned)
 	wrapped     clientv3.LeaseID // lease object already wrapped (identified by id; 0 = none yet)
 	wrappedSet  bool
 	pending     chan string // parked campaign
@@ -740,44 +740,61 @@ func (w *world) keep(c *cont) {
 func (w *world) realExpiry(ttl int64) string {
 	election.VerifSetClock(nil)
 	defer election.VerifSetClock(injectedNow)
-	c := etcdh.NewClient(w.e.Cfg)
-	defer c.Close()
-	key := w.root + "-real/leader"
-	ls := election.NewLeadership(c, key, "assumption check")
-	if err := ls.Campaign(ttl, "real"); err != nil {
-		return "err"
-	}
-	if !ls.Check() {
-		return "check-false-after-campaign"
-	}
-	deadline := time.Now().Add(60 * time.Second)
-	for ls.Check() {
-		if time.Now().After(deadline) {
-			return "local-view-never-expired"
-		}
-		time.Sleep(time.Millisecond)
-	}
-	// the local view has just expired
-	r, err := w.e.Client.Get(context.Background(), key)
-	if err != nil {
-		return "err"
-	}
-	if len(r.Kvs) == 0 {
-		return "server-expired-first"
-	}
-	for {
-		r, err := w.e.Client.Get(context.Background(), key)
-		if err != nil {
+	// The verdict must not depend on how this process is scheduled (a stalled goroutine between "the local view
+	// expired" and "look at etcd" would blame the code): the local expiry time lies in [t0+ttl, t1+ttl] (the lease
+	// stores `time before the Grant request + ttl`), and every Get is bracketed by its start and return times.
+	//   refuted:   the key is absent in an answer that returned before t0+ttl
+	//   confirmed: the key is present in an answer to a request that started at or after t1+ttl
+	// anything else is inconclusive; the measurement is repeated, and an assumption that was never refuted stands.
+	for attempt := 0; attempt < 3; attempt++ {
+		c := etcdh.NewClient(w.e.Cfg)
+		key := fmt.Sprintf("%s-real%d/leader", w.root, attempt)
+		ls := election.NewLeadership(c, key, "assumption check")
+		t0 := time.Now()
+		if err := ls.Campaign(ttl, "real"); err != nil {
+			c.Close()
 			return "err"
 		}
-		if len(r.Kvs) == 0 {
-			return "ok"
+		t1 := time.Now()
+		if !ls.Check() {
+			c.Close()
+			return "check-false-after-campaign"
 		}
-		if time.Now().After(deadline) {
-			return "server-never-expired"
+		lo, hi := t0.Add(time.Duration(ttl)*time.Second), t1.Add(time.Duration(ttl)*time.Second)
+		deadline := time.Now().Add(60 * time.Second)
+		verdict := ""
+		for verdict == "" {
+			start := time.Now()
+			r, err := w.e.Client.Get(context.Background(), key)
+			ret := time.Now()
+			if err != nil {
+				c.Close()
+				return "err"
+			}
+			present := len(r.Kvs) != 0
+			switch {
+			case !present && ret.Before(lo):
+				verdict = "server-expired-first"
+			case present && !start.Before(hi):
+				verdict = "ok"
+			case !present:
+				verdict = "inconclusive"
+			case time.Now().After(deadline):
+				verdict = "server-never-expired"
+			default:
+				time.Sleep(2 * time.Millisecond)
+			}
 		}
-		time.Sleep(5 * time.Millisecond)
+		stillValid := ls.Check() // at or after t1+ttl the local view must have expired
+		c.Close()
+		if verdict == "ok" && stillValid {
+			return "local-view-never-expired"
+		}
+		if verdict != "inconclusive" {
+			return verdict
+		}
 	}
+	return "ok"
 }
 
 func (w *world) leaderRecord(l int) (*pdpb.Member, int64, int64) {
@@ -1224,4 +1241,3 @@ func main() {
 		os.Exit(4)
 	}
 }
-
